@@ -1,7 +1,7 @@
 (* Props/C01.v -- TextGrid save/open round trip: the text layer.
    Property theorems only; proofs are in IO/CodecProofs.v. *)
 From Coq Require Import String.
-From PraatIO Require Import IO.IoModel IO.CodecProofs IO.ShortFileProofs IO.LongFileProofs.
+From PraatIO Require Import IO.IoModel IO.CodecProofs IO.ShortFileProofs IO.LongFileProofs IO.JsonDict.
 Open Scope Z_scope.
 
 (* un-doubling the doubled form is the identity, for every label and name *)
@@ -109,6 +109,22 @@ Theorem C01_long_point_block j N1 lab trail :
   parse_long_point true (pchunk j N1 lab ++ trail) = Ok (RP N1 (strip lab)).
 Proof. exact (parse_pchunk j N1 lab trail). Qed.
 Print Assumptions C01_long_point_block.
+
+(* the plain json format: its two dictionary conversions (tiers keyed by name, one span for the whole
+   textgrid) lose nothing but the per-tier spans when tier names are unique -- names, order, types and
+   entries come back, every tier with the textgrid's span (the property's one exemption); and nothing
+   at all when every tier already has that span *)
+Theorem C01_json_dictionary_roundtrip g :
+  NoDup (map d_name (dg_tiers g)) -> json_up (json_down g) = respan_all g.
+Proof. exact (json_up_down g). Qed.
+Print Assumptions C01_json_dictionary_roundtrip.
+
+Theorem C01_json_dictionary_roundtrip_exact g :
+  NoDup (map d_name (dg_tiers g)) ->
+  forallb (fun t => (d_xmin t =? dg_xmin g) && (d_xmax t =? dg_xmax g)) (dg_tiers g) = true ->
+  json_up (json_down g) = g.
+Proof. exact (json_up_down_exact g). Qed.
+Print Assumptions C01_json_dictionary_roundtrip_exact.
 
 (* the reader before the repair of F2 did not un-double point marks: witness *)
 Theorem C01_long_point_mark_legacy_refuted :
